@@ -166,6 +166,9 @@ def instances(tier):
         out.append(inst('helper p%d knot_list[1/2,3/4]' % p, h_refine_helper, p=p, kv=kv, knot_list=[F(1, 2), F(3, 4)]))
         out.append(inst('helper p%d knot_list[1/4,1/2] d2' % p, h_refine_helper, p=p, kv=kv, knot_list=[F(1, 4), F(1, 2)], density=2))
         out.append(inst('helper p%d dom[2,5] knot_list' % p, h_refine_helper, p=p, kv=fam.pattern(p, (1,), 2, 5), knot_list=[F(3), F(4)]))
+        out.append(inst('helper p%d knot_list in last span' % p, h_refine_helper, p=p, kv=kv, knot_list=[F(4, 5), F(9, 10)]))
+        out.append(inst('helper p%d knot_list in first span' % p, h_refine_helper, p=p, kv=kv, knot_list=[F(1, 10), F(1, 5)]))
+        out.append(inst('helper p%d single knot in last span' % p, h_refine_helper, p=p, kv=kv, knot_list=[F(7, 8), F(7, 8)], density=1))
         out.append(inst('helper p%d add1' % p, h_refine_helper, timeout=900, p=p, kv=fam.pattern(p, (1,)), n_add=1))
         if not quick:
             out.append(inst('helper p%d add2' % p, h_refine_helper, timeout=1800, p=p, kv=fam.pattern(p, (1,)), n_add=2))
